@@ -357,7 +357,37 @@ func runCase(r *ev.Run, id caseID) {
 				fail("update-error", name, "apply on saver", err.Error())
 				return
 			}
-			snap, err := a.Snapshot()
+			// the saver goes on applying (and syncing) between PrepareSnapshot and SaveSnapshot, as a
+			// replica does while its snapshot is being streamed
+			ahead := 0
+			if g.R.Intn(2) == 0 {
+				ahead = g.R.Intn(len(entries) - cutAt + 1)
+			}
+			sctx, err := a.SM.PrepareSnapshot()
+			if err != nil {
+				a.Close()
+				fail("snapshot-save-error", name, "prepare", err.Error())
+				return
+			}
+			if ahead > 0 {
+				name += fmt.Sprintf("+saver applies %d more before save", ahead)
+				if _, err := applyAll(a, entries[cutAt:cutAt+ahead], []int{ahead}); err != nil {
+					a.Close()
+					fail("update-error", name, "apply on saver between prepare and save", err.Error())
+					return
+				}
+				if g.R.Intn(2) == 0 {
+					if err := a.SM.Sync(); err != nil {
+						a.Close()
+						fail("update-error", name, "sync on saver between prepare and save", err.Error())
+						return
+					}
+				}
+				r.Count("snapshot_transfers_saver_ahead", 1)
+			}
+			var sbuf bytes.Buffer
+			err = a.SM.SaveSnapshot(sctx, &sbuf, nil)
+			snap := sbuf.Bytes()
 			a.Close()
 			if err != nil {
 				fail("snapshot-save-error", name, "save", err.Error())
@@ -393,6 +423,20 @@ func runCase(r *ev.Run, id caseID) {
 			if err := b.Recover(snap); err != nil {
 				b.Close()
 				fail("snapshot-recover-error", name, "recover", err.Error())
+				return
+			}
+			// the receiver now is a replica that has applied exactly the prefix up to the cut
+			mc := model.NewTable()
+			for _, e := range entries[:cutAt] {
+				mc.Apply(e.Index, fsmx.Decoded(e))
+			}
+			if d, err := b.Dump(); err != nil {
+				b.Close()
+				fail("dump-error", name, "after recover", err.Error())
+				return
+			} else if why := fsmx.Diff(d, mc); why != "" {
+				b.Close()
+				fail("replica-state-differs", name, "right after recover", why+" (vs the state after the log prefix the snapshot stands for)")
 				return
 			}
 			r.Count("snapshot_transfers", 1)
